@@ -32,7 +32,7 @@ def describe(rep):
              ph.get_weighted_iFFT_matrix, ph.get_E_matrix, ph.get_G_inv_matrix, ph.get_H_matrix, C.it_ParaDiag, C.apply_matrix, C.compute_all_at_once_residual,
              C.update_solution, C.prepare_Jacobians, ParaDiagController.FFT_in_time, ParaDiagController.iFFT_in_time)
     rep.explanation = __doc__
-    rep.rule = 'case = (n_steps, alpha) for the tables; (M, n_steps, alpha, dt*lambda) for the sweeper / controller iteration (controller fresh, reconfigured to another alpha, or built from a description dictionary an earlier controller was built from); one or two SMT queries (QF_LRA) over all data in the unit box'
+    rep.rule = 'case = (n_steps, alpha) for the tables; (M, n_steps, alpha, dt*lambda) for the sweeper (applied once, or again after the step size of its level changed) / controller iteration (controller fresh, reconfigured to another alpha, or built from a description dictionary an earlier controller was built from); one or two SMT queries (QF_LRA) over all data in the unit box'
     rep.assume('alpha is enumerated (fractional powers cannot be symbolic)', 'tolerances calibrated against measured rounding (1-5 eps cond(J)): (1e-13 cond(J) + 1e-12) L for the tables, 1e-10 + 1e-13 cond(J) for the iteration',
                'linear scalar Dahlquist problem with an exact Jacobian solve; averaged Jacobian is irrelevant for linear problems')
     rep.out_of_scope('alpha symbolic', 'n_steps > 8', 'nonlinear problems / averaged Jacobians', 'converged multi-block runs beyond the one-iteration + fixed-point argument', 'the MPI ParaDiag path')
